@@ -257,6 +257,7 @@ func SelectEndPoint(addrs []string, user, token string) (addr string, channel Ch
 		channel := NewChannel(endpoint, capability)
 		err = channel.Authenticate()
 		if err != nil {
+			endpoint.Close()
 			return "", nil, fmt.Errorf("authentication error: %s",
 				err)
 		}
